@@ -32,9 +32,10 @@ def run(tier):
     reg = solver.Registry(solver.THOROUGH_TIMEOUT_MS if tier == "thorough" else 30000)
     R.add_registry(reg)
     jobs = [dict(fn="props.events:job_handle_events", label="%s/handle_events[n=%d]" % (PID, n), kwargs=dict(prop=PID, n=n)) for n in (1, 2)]
-    for n, terms, d in EC.configs(tier, "terminal"):
-        jobs.extend(IE.event_jobs(PID, n, terms, d))
-    jobs.append(dict(fn="props.integrate_events:job_recursive", label=PID + "/integrate[no-events]", kwargs=dict(prop=PID)))
+    cfgs = EC.configs(tier, "terminal")
+    for n, terms, d, dense in cfgs:
+        jobs.extend(IE.event_jobs(PID, n, terms, d, dense))
+    jobs.extend(IE.recursive_jobs(PID, cfgs))
     jobs.append(dict(fn="props.integrate_events:job_status", label=PID + "/status", kwargs=dict(prop=PID)))
     EC.obligations_of(reg, R, jobs)
     for name in ("handle_events", "prepare_events", "OdeSystem.integrate", "OdeSystem.success", "OdeSystem.integration_status", "DenseOutput.add_interpolant", "DenseOutput.remove_interpolant"):
